@@ -1,4 +1,8 @@
-(* C09 / C11 model driver: same case lines and the same output format as harness/c09.c *)
+(* C09 / C11 model driver: same case lines and the same output format as harness/c09.c.
+   The expansion of values is a parameter of the Conf model (property C10), and the environment, directory listings and
+   the output of commands belong to the outside world: the tokens E D O only prepare that world, and the operations x
+   (spifconf_shell_expand on a text) and s (%dirscan against the directory) are decided on the implementation side
+   (sanitizers, termination inside the block, the listing read back) - the ideal answer is "ok". *)
 let show_fault x = "FAULT:" ^ fault_name x
 exception Faulted of string
 
@@ -12,7 +16,12 @@ let show_event (e : event) : string option =
     Some (match a with
         | HBegin -> Printf.sprintf "%db%s" (int_of_z k) tail
         | HEnd -> Printf.sprintf "%de%s" (int_of_z k) tail
-        | HText s -> Printf.sprintf "%dt%s:%s" (int_of_z k) (hex_of_zbytes s) tail)
+        | HText s ->
+          (* a text line that consists of the begin or end marker byte alone reaches the handler as the same string as the call *)
+          (match List.map int_of_z s with
+           | [1] -> Printf.sprintf "%db%s" (int_of_z k) tail
+           | [2] -> Printf.sprintf "%de%s" (int_of_z k) tail
+           | _ -> Printf.sprintf "%dt%s:%s" (int_of_z k) (hex_of_zbytes s) tail))
   | _ -> None
 let is_spawn = function EvSpawn _ -> true | _ -> false
 
@@ -34,7 +43,10 @@ let do_hist (toks : string list) : string =
   let files = files @ chain in
   let total = List.fold_left (fun a (_, d) -> a + List.length d) 0 files in
   let fuel = nat_of_int (4 * total + 100000) in
-  let tmp_ok = not (List.mem "T" toks) in
+  (* T: no temporary directory; P<n>: its name has n characters and spiftool_temp_file's name for %preproc
+     ("<dir>/Eterm-preproc-XXXXXX") must fit a 256-byte buffer *)
+  let tmp_ok = not (List.mem "T" toks) &&
+               List.for_all (fun t -> not (t <> "" && t.[0] = 'P') || int_of_string (String.sub t 1 (String.length t - 1)) + 21 <= 255) toks in
   let prog = str_of_ascii "lv" in
   let st = ref (iconf0, Z0) in
   let nexth = ref 0 in
@@ -49,7 +61,9 @@ let do_hist (toks : string list) : string =
          if t = "" then () else
            let a = String.sub t 1 (String.length t - 1) in
            match t.[0] with
-           | 'F' | 'T' | 'C' -> ()
+           | 'F' | 'T' | 'C' | 'E' | 'D' | 'O' | 'P' -> ()
+           | 'x' -> Buffer.add_string out "x:ok "
+           | 's' -> Buffer.add_string out "s:ok "
            | 'i' -> ignore (apply OInit); Buffer.add_string out "i "
            | 'f' ->
              ignore (apply OFree);
